@@ -17,7 +17,7 @@ partial def loop (h : IO.FS.Stream) (out : IO.FS.Stream) (judge : String → Str
 def engines : List (String × (String → String → String)) :=
   [("commitment", cmJudge), ("nextconfig", ncJudge), ("logcache", lcJudge), ("compaction", cpJudge), ("sinkfault", sfJudge),
    ("handlers", hJudge), ("handlers-nomon", hJudgeWith []), ("universe", uJudgeWith umonAll), ("cluster", cJudgeWith (cmonFor "all")), ("filesnap", fsJudge), ("wire", wireJudge), ("catchup", cuJudge), ("leader", lJudgeWith (lmonFor "all")), ("follower", lJudgeWith (lmonFor "all"))] ++
-  ["C01", "C02", "C03", "C04", "C05", "C07", "C08", "C09", "C12", "C14", "C17", "C18"].map (fun p => ("leader-" ++ p, lJudgeWith (lmonFor p))) ++
+  ["C01", "C02", "C03", "C04", "C05", "C07", "C08", "C09", "C12", "C13", "C14", "C17", "C18"].map (fun p => ("leader-" ++ p, lJudgeWith (lmonFor p))) ++
   ["C01", "C02", "C03", "C04", "C05", "C07", "C08", "C09", "C10", "C11", "C12", "C13", "C14", "C17", "C18", "C20"].map (fun p => ("cluster-" ++ p, cJudgeWith (cmonFor p))) ++
   ["C02", "C03", "C04", "C05", "C06", "C07", "C10", "C11", "C12", "C14", "C18"].flatMap (fun p =>
     [("handlers-" ++ p, hJudgeWith (amonFor p)), ("universe-" ++ p, uJudgeWith (umonFor p))])
